@@ -80,7 +80,7 @@ impl StackS {
 }
 
 //@struct file=yarel/src/object.rs name=CallFrame map "*const u8" => "usize"
-//@struct file=yarel/src/object.rs name=ObjFiber keepfields=caller,stack,frames,handling_exception,call_arity map "Stack<Value, STACK_MAX>" => "StackS"
+//@struct file=yarel/src/object.rs name=ObjFiber keepfields=caller,stack,frames,handling_exception,call_arity,return_ip,return_frame_count map "Stack<Value, STACK_MAX>" => "StackS" map "*const u8" => "usize"
 impl ObjFiber {
     //@fn file=yarel/src/object.rs path=ObjFiber::has_finished ret=r
     //@  ensures r == (self.frames@.len() == 0)
@@ -94,6 +94,11 @@ impl ObjFiber {
     // value stack, caller link are not touched
     #[verifier::external_body]
     fn close_upvalues_for_frame(&mut self) requires old(self).frames@.len() > 0 ensures *final(self) == *old(self) { unimplemented!() }
+    // object.rs take_return_data (its own contract: unit exc): forgets the parked return
+    #[verifier::external_body]
+    fn take_return_data(&mut self) -> (r: Option<(Value, usize)>)
+        ensures final(self).return_ip is None, final(self).caller == old(self).caller, final(self).stack == old(self).stack, final(self).frames == old(self).frames, final(self).handling_exception == old(self).handling_exception, final(self).call_arity == old(self).call_arity, final(self).return_frame_count == old(self).return_frame_count
+    { unimplemented!() }
     #[verifier::external_body]
     fn current_frame(&self) -> (r: Option<&CallFrame>) ensures self.frames@.len() > 0 ==> (r matches Some(f) && *f == self.frames@.last()), self.frames@.len() == 0 ==> r is None { unimplemented!() }
     #[verifier::external_body]
@@ -101,6 +106,7 @@ impl ObjFiber {
         requires old(self).frames@.len() > 0
         ensures r matches Some(f) && *f == old(self).frames@.last() && final(self).frames@ == old(self).frames@.drop_last().push(*final(f)),
             final(self).stack == old(self).stack, final(self).caller == old(self).caller, final(self).handling_exception == old(self).handling_exception, final(self).call_arity == old(self).call_arity,
+            final(self).return_ip == old(self).return_ip, final(self).return_frame_count == old(self).return_frame_count,
     { unimplemented!() }
 }
 
@@ -141,7 +147,7 @@ impl Vm {
     fn clear_caller(&mut self, current: Option<Root<RefCell<ObjFiber>>>)
         requires current matches Some(c) && old(self).heap.dom().contains(c.id())
         ensures old(self).handles_same(final(self)),
-            final(self).heap == old(self).heap.insert(current->0.id(), ObjFiber { caller: None, stack: old(self).heap[current->0.id()].stack, frames: old(self).heap[current->0.id()].frames, handling_exception: old(self).heap[current->0.id()].handling_exception, call_arity: old(self).heap[current->0.id()].call_arity }),
+            final(self).heap == old(self).heap.insert(current->0.id(), ObjFiber { caller: None, stack: old(self).heap[current->0.id()].stack, frames: old(self).heap[current->0.id()].frames, handling_exception: old(self).heap[current->0.id()].handling_exception, call_arity: old(self).heap[current->0.id()].call_arity, return_ip: old(self).heap[current->0.id()].return_ip, return_frame_count: old(self).heap[current->0.id()].return_frame_count }),
     { unimplemented!() }
 
     // operand-stack helpers of the ACTIVE fiber (vm.rs push/pop/poke: proved against Stack's contract in unit `exc`)
@@ -149,21 +155,21 @@ impl Vm {
     fn pop(&mut self) -> (r: Value)
         requires old(self).fiber is Some, old(self).heap.dom().contains(old(self).active_id()), old(self).active().stack.view.len() > 0
         ensures old(self).handles_same(final(self)), r == old(self).active().stack.view.last(),
-            final(self).heap == old(self).heap.insert(old(self).active_id(), ObjFiber { caller: old(self).active().caller, stack: StackS { view: old(self).active().stack.view.drop_last() }, frames: old(self).active().frames, handling_exception: old(self).active().handling_exception, call_arity: old(self).active().call_arity }),
+            final(self).heap == old(self).heap.insert(old(self).active_id(), ObjFiber { caller: old(self).active().caller, stack: StackS { view: old(self).active().stack.view.drop_last() }, frames: old(self).active().frames, handling_exception: old(self).active().handling_exception, call_arity: old(self).active().call_arity, return_ip: old(self).active().return_ip, return_frame_count: old(self).active().return_frame_count }),
             forall|i: int| #![trigger old(self).heap.dom().contains(i)] old(self).heap.dom().contains(i) && i != old(self).active_id() ==> final(self).heap.dom().contains(i) && final(self).heap[i] == old(self).heap[i],
     { unimplemented!() }
     #[verifier::external_body]
     fn push(&mut self, value: Value)
         requires old(self).fiber is Some, old(self).heap.dom().contains(old(self).active_id()), old(self).active().stack.view.len() < STACK_MAX
         ensures old(self).handles_same(final(self)),
-            final(self).heap == old(self).heap.insert(old(self).active_id(), ObjFiber { caller: old(self).active().caller, stack: StackS { view: old(self).active().stack.view.push(value) }, frames: old(self).active().frames, handling_exception: old(self).active().handling_exception, call_arity: old(self).active().call_arity }),
+            final(self).heap == old(self).heap.insert(old(self).active_id(), ObjFiber { caller: old(self).active().caller, stack: StackS { view: old(self).active().stack.view.push(value) }, frames: old(self).active().frames, handling_exception: old(self).active().handling_exception, call_arity: old(self).active().call_arity, return_ip: old(self).active().return_ip, return_frame_count: old(self).active().return_frame_count }),
             forall|i: int| #![trigger old(self).heap.dom().contains(i)] old(self).heap.dom().contains(i) && i != old(self).active_id() ==> final(self).heap.dom().contains(i) && final(self).heap[i] == old(self).heap[i],
     { unimplemented!() }
     #[verifier::external_body]
     fn poke(&mut self, depth: usize, value: Value)
         requires old(self).fiber is Some, old(self).heap.dom().contains(old(self).active_id()), depth < old(self).active().stack.view.len()
         ensures old(self).handles_same(final(self)),
-            final(self).heap == old(self).heap.insert(old(self).active_id(), ObjFiber { caller: old(self).active().caller, stack: StackS { view: old(self).active().stack.view.update(old(self).active().stack.view.len() - 1 - depth, value) }, frames: old(self).active().frames, handling_exception: old(self).active().handling_exception, call_arity: old(self).active().call_arity }),
+            final(self).heap == old(self).heap.insert(old(self).active_id(), ObjFiber { caller: old(self).active().caller, stack: StackS { view: old(self).active().stack.view.update(old(self).active().stack.view.len() - 1 - depth, value) }, frames: old(self).active().frames, handling_exception: old(self).active().handling_exception, call_arity: old(self).active().call_arity, return_ip: old(self).active().return_ip, return_frame_count: old(self).active().return_frame_count }),
             forall|i: int| #![trigger old(self).heap.dom().contains(i)] old(self).heap.dom().contains(i) && i != old(self).active_id() ==> final(self).heap.dom().contains(i) && final(self).heap[i] == old(self).heap[i],
     { unimplemented!() }
     // ip := saved ip of the active fiber's current frame (plus active chunk / module, not modelled)
@@ -223,6 +229,7 @@ impl Vm {
     //@  ensures r is Ok ==> final(self).wf() && final(self).heap.dom().contains(final(self).active_id()) && final(self).active().stack.view.len() > 0
     //@  ensures @caller_continues_where_it_called r is Ok ==> final(self).active().frames == old(self).heap[old(self).active().caller->0.id()].frames && final(self).ip == final(self).active().frames@.last().ip && final(self).active().caller == old(self).heap[old(self).active().caller->0.id()].caller
     //@  ensures @yielding_fiber_suspended r is Ok ==> final(self).heap[old(self).active_id()].caller is None && final(self).heap[old(self).active_id()].stack.view == (if arg is Some { old(self).active().stack.view.drop_last() } else { old(self).active().stack.view }) && (old(self).active().frames@.len() > 0 ==> final(self).heap[old(self).active_id()].frames@.last().ip == old(self).ip && final(self).heap[old(self).active_id()].frames@.drop_last() == old(self).active().frames@.drop_last()) && (old(self).active().frames@.len() == 0 ==> final(self).heap[old(self).active_id()].frames == old(self).active().frames)
+    //@  ensures r is Ok ==> final(self).heap[old(self).active_id()].return_ip == old(self).active().return_ip && final(self).heap[old(self).active_id()].return_frame_count == old(self).active().return_frame_count
     //@  ensures @other_fibers_untouched r is Ok ==> forall|i: int| #![trigger old(self).heap.dom().contains(i)] old(self).heap.dom().contains(i) && i != old(self).active_id() && i != old(self).active().caller->0.id() ==> final(self).heap.dom().contains(i) && final(self).heap[i] == old(self).heap[i]
     //@  ensures @exception_in_flight_stays_with_its_fiber r is Ok ==> final(self).handling_exception == old(self).heap[old(self).active().caller->0.id()].handling_exception && final(self).heap[old(self).active_id()].handling_exception == old(self).handling_exception
     //@end
@@ -244,6 +251,7 @@ impl Vm {
     //@  ensures @the_bodys_return_value_becomes_the_result_of_call (old(self).active().frames@.len() == 1 && old(self).active().caller is Some) ==> r == Ok::<Option<Value>, Error>(None) && (final(self).fiber matches Some(x) && x.id() == old(self).active().caller->0.id()) && final(self).active().stack.view == old(self).heap[old(self).active().caller->0.id()].stack.view.update(old(self).heap[old(self).active().caller->0.id()].stack.view.len() - 1, old(self).active().stack.view.last())
     //@  ensures @a_finished_fiber_keeps_no_frame_and_no_caller (old(self).active().frames@.len() == 1 && old(self).active().caller is Some) ==> final(self).heap[old(self).active_id()].frames@.len() == 0 && final(self).heap[old(self).active_id()].caller is None && final(self).active().frames == old(self).heap[old(self).active().caller->0.id()].frames
     //@  ensures @a_finished_fiber_keeps_none_of_its_values (old(self).active().frames@.len() == 1 && old(self).active().caller is Some) ==> final(self).heap[old(self).active_id()].stack.view.len() == 0
+    //@  ensures @a_frame_that_is_left_takes_the_return_it_had_parked_along final(self).heap[old(self).active_id()].return_ip is Some ==> final(self).heap[old(self).active_id()].return_frame_count != old(self).active().frames@.len()
     //@  ensures @the_end_of_the_outermost_fiber_ends_the_run (old(self).active().frames@.len() == 1 && old(self).active().caller is None) ==> (r matches Ok(Some(_))) && final(self).fiber == old(self).fiber && final(self).active().frames@.len() == 0
     //@  ensures @other_fibers_untouched forall|i: int| old(self).heap.dom().contains(i) && i != old(self).active_id() && !(old(self).active().caller matches Some(c) && i == c.id()) ==> final(self).heap.dom().contains(i) && final(self).heap[i] == old(self).heap[i]
     //@end
